@@ -747,6 +747,17 @@ func (vc *VC) unop(x *ssa.UnOp) {
 		}
 		t := vc.setVal(x, vc.loadAddrIn(vc.heap, a))
 		vc.assume(vc.rangeFact(t.S, x.Type()))
+		if g, ok := x.X.(*ssa.Global); ok && (t.Sort == "Slice" || t.Sort == "Str") {
+			if n, ok := vc.eng.globalSliceLen(g); ok {
+				// a package-level slice variable that is never reassigned keeps the length of its initialiser
+				lf := "s_len"
+				if t.Sort == "Str" {
+					lf = "strlen"
+				}
+				vc.assume(fmt.Sprintf("(= (%s %s) %d)", lf, t.S, n))
+				vc.trusted["package-level slice variables that are assigned only by their initialiser keep its length: "+g.Name()] = true
+			}
+		}
 		if af := vc.allocFact(t.S, x.Type()); af != "true" {
 			vc.assume(af)
 			// a value read from a heap component that has not been written since function entry existed at entry
